@@ -5,6 +5,6 @@ cd /verif
 for d in seeded/*/; do id=$(basename $d); [ -f $d/patch.diff ] || continue
   tgt=${id%%-*}
   c=$(./seedtool.sh detect $PWD/$d/patch.diff 2>&1 | grep DETECT | sed 's/.*caught-by://')
-  miss=""; case " $c " in *" $tgt "*) ;; *) miss="  TARGET-MISS";; esac
+  miss=""; case " $c " in *" $tgt "*) ;; *) miss="  TARGET-MISS"; grep -q "^$id " seeded/EXPECTED_MISSES.txt && miss="  EXPECTED-MISS";; esac
   echo "$id: target=$tgt caught-by:$c$miss"
 done
